@@ -82,6 +82,11 @@ def cut : AnyObj → Nat → Nat
   | .l2 x, k => L2.padTo x k
   | .ip (.ip _), _ => 0          -- the IP total length cuts them off
   | .ip6 _, _ => 0               -- the IPv6 payload length cuts them off
+  | .app (.arp _), k => k        -- ARP hands whatever follows its 28 bytes to RawPDU
+  | .app (.vxlan _), k => k      -- VXLAN hands everything to EthernetII
+  | .app _, _ => 0               -- STP ignores what follows; RTP strips its own padding trailer; BootP / DHCP / DHCPv6 are leaves
+  | .wifi (.dot11 _), k => k     -- data frames hand everything to SNAP / RawPDU
+  | .wifi _, _ => 0              -- the EAPOL length field cuts them off (`EAPOL::from_bytes`); RadioTap strips the FCS it announces
   | _, k => k
 
 theorem cut_le (x : AnyObj) (k : Nat) : cut x k ≤ k := by
@@ -95,6 +100,8 @@ def PadOK : AnyObj → Prop
   | .l2 y => L2.EtherTier y
   | .ip (.ip _) => True
   | .ip6 _ => True
+  | .app (.arp _) => True        -- the padding becomes ARP's RawPDU
+  | .app (.stp _) => True        -- STP ignores it
   | _ => False
 
 /-- the `k` zero bytes behind the region of `x` (which has the ancestors `ps`) are legitimate -/
@@ -136,13 +143,52 @@ theorem reach_le (os : List AnyObj) : ∀ k, reach os k ≤ k + padOf os := by
 theorem padAll_le_padOf (os : List AnyObj) : padAll os ≤ padOf os := by
   have := reach_le os 0; simpa [padAll] using this
 
+/-! ### entry names
+
+The parsing constructors reach most classes under their own name.  Two families are (also) reached through a factory:
+`Dot11::from_bytes` (entry `Dot11*`: what RadioTap calls) picks the class from the frame-control octet, and
+`EAPOL::from_bytes` (entries `EAPOL` — what the EtherType 0x888e dispatches to — and `EAPOL*`) picks RC4EAPOL / RSNEAPOL from
+the key-descriptor type octet and cuts the buffer at the EAPOL length field. -/
+
+/-- the key-descriptor type octet names the class of the object (`EAPOL::from_bytes`: 1 = RC4, 2 / 254 = RSN) -/
+def EapolTyped (e : Wifi.Eapol) : Prop :=
+  (e.rsn = false ∧ Wifi.byteAt e.hdr 4 = 1) ∨ (e.rsn = true ∧ (Wifi.byteAt e.hdr 4 = 2 ∨ Wifi.byteAt e.hdr 4 = 254))
+
+/-- `n` is a factory entry that builds the class of `y` from `y`'s own bytes -/
+def PseudoName (n : String) : AnyObj → Prop
+  | .wifi (.dot11 d) => n = "Dot11*" ∧ Wifi.Dot11.dispatch (Wifi.byteAt d.hdr 0) = d.cls
+  | .wifi (.eapol e) => (n = "EAPOL" ∨ n = "EAPOL*") ∧ EapolTyped e
+  | _ => False
+
+/-- names under which the parsing constructors build an object of `y`'s class from `y`'s serialization -/
+def EntryName (n : String) (y : AnyObj) : Prop := n = y.info.1 ∨ PseudoName n y
+
+theorem entryName_self (y : AnyObj) : EntryName y.info.1 y := .inl rfl
+
+def isEapol : AnyObj → Bool
+  | .wifi (.eapol _) => true
+  | _ => false
+
+/-- zero bytes behind the region of `x` are legitimate when `x` is entered under the name `n`: the classes of `PadOK`, and
+    RC4EAPOL / RSNEAPOL when entered through `EAPOL::from_bytes` (which cuts the buffer at the length field) -/
+def PadOKN (n : String) (x : AnyObj) : Prop := PadOK x ∨ (isEapol x = true ∧ (n = "EAPOL" ∨ n = "EAPOL*"))
+
+/-- the `k` zero bytes behind the region of `x` (ancestors `ps`, entered under the name `n`) are legitimate -/
+def PadCondN (ps : List LayerInfo) (n : String) (x : AnyObj) (k : Nat) : Prop := k = 0 ∨ (ps ≠ [] ∧ PadOKN n x)
+
+theorem padCondN_of_padCond {ps : List LayerInfo} {n : String} {x : AnyObj} {k : Nat} (h : PadCond ps x k) :
+    PadCondN ps n x k := by
+  rcases h with h | h
+  · exact .inl h
+  · exact .inr ⟨h.1, .inl h.2⟩
+
 /-- the inner-PDU decision of the re-parse of layer `x` (re-parsed as `x'`) above the stack `os`, whose serialization is
     `io`, when `k'` zero bytes follow `io` in the buffer -/
 def StepInnerA (x : AnyObj) (os : List AnyObj) (io : Bytes) (k' : Nat) (x' : AnyObj) (inner : Inner) : Prop :=
   match nextA os with
   | .none => TailInner inner (List.replicate (cut x k') 0)
   | .raw p => layerView (!p.isEmpty) x' = layerView (!p.isEmpty) x ∧ TailInner inner (p ++ List.replicate (cut x k') 0)
-  | .obj y _ => (∃ fb, inner = .cls y.info.1 (io ++ List.replicate (cut x k') 0) fb) ∧ (cut x k' = 0 ∨ PadOK y)
+  | .obj y _ => ∃ n fb, inner = .cls n (io ++ List.replicate (cut x k') 0) fb ∧ EntryName n y ∧ (cut x k' = 0 ∨ PadOKN n y)
   | .bad => False
 
 /-! ### views -/
